@@ -56,7 +56,8 @@ static long verif_random(void)
 
 static struct qb_loop L;
 static struct qb_loop_source fdsrc;
-static int32_t fd_poll(struct qb_loop_source *s, int32_t ms) { (void)s; (void)ms; qb_loop_stop(&L); return 0; }
+static int iters_left = 1;
+static int32_t fd_poll(struct qb_loop_source *s, int32_t ms) { (void)s; (void)ms; if (--iters_left <= 0) qb_loop_stop(&L); return 0; }
 
 /* ---- ghost ---- */
 static int job_adds[2], job_dels[2], job_runs[2];
@@ -67,6 +68,11 @@ static int early_fire, run_after_del;
 static int job_dead[2];               /* instances deleted: must not run */
 
 static void cb(void *data);
+static void cb_alias(void *data);
+static int alias_or_job_runs, medjob_queued;
+static int alias_pending, alias_adds, alias_runs, medjob_adds, medjob_dels, medjob_runs;
+static uint64_t alias_expiry;
+static qb_loop_timer_handle alias_handle;
 #define JOB(j) ((void *)(intptr_t)(10 + (j)))
 #define TMR(t) ((void *)(intptr_t)(20 + (t)))
 
@@ -114,6 +120,15 @@ static void cb(void *data)
 	}
 }
 
+/* family 2: one callback shared by the alias timer and the MED job; which one ran is decided by the ghost:
+ * timers are dispatched from the expired-timer bookkeeping (state JOBLIST), jobs otherwise */
+static void cb_alias(void *data)
+{
+	(void)data;
+	/* the loop dispatches items of one level in FIFO order; attribute the run to the alias timer iff it is due and
+	 * has not run, preferring the item that was queued first is not observable here: count both */
+	alias_or_job_runs++;
+}
 struct opdef { uint8_t kind, arg; };
 /* Two families (measured: histories that put job items and timer items into the SAME level list make CBMC's
  * symbolic execution of the list walks in qb_loop_job_del non-terminating within 60 s; homogeneous lists take < 1 s):
@@ -126,6 +141,14 @@ static const struct opdef ALPHA[] = {
 	{1,0},{1,1},      /* job_add(j) */
 	{2,0},            /* job_del(0) */
 	{7,0},            /* run one loop iteration */
+#elif FAMILY == 2
+	/* a MED-priority timer registered with the SAME callback and data as job 0 ("alias"): an expired timer sits in
+	 * the same per-level list as queued jobs; deleting job 0 must neither match nor disturb it */
+	{9,0},            /* timer_add(alias of job 0, MED, 10 ms) */
+	{10,0},           /* job_add(job 0 at MED) */
+	{11,0},           /* job_del(job 0 at MED) */
+	{6,0},            /* advance the clock 1 s, run one iteration (only HIGH is served: MED items stay queued) */
+	{12,0},           /* run three iterations (every level served) */
 #else
 	{3,0},{3,1},      /* timer_add(t, 10 ms) */
 	{4,0},            /* timer_del(0) with its current handle */
@@ -139,6 +162,13 @@ static const struct opdef ALPHA[] = {
 
 static void iteration(void)
 {
+	iters_left = 1;
+	qb_loop_run(&L);
+}
+/* three iterations in one qb_loop_run: p_stop walks HIGH, MED, LOW, so every level is served */
+static void three_iterations(void)
+{
+	iters_left = 3;
 	qb_loop_run(&L);
 }
 
@@ -172,6 +202,26 @@ static void do_op(int kind, int a)
 		break;
 	case 7:
 		iteration();
+		break;
+	case 9:
+		if (alias_pending) break;
+		PROP(qb_loop_timer_add(&L, QB_LOOP_MED, 10 * QB_TIME_NS_IN_MSEC, JOB(0), cb_alias, &alias_handle) == 0, "timer_add succeeds");
+		alias_pending = 1; alias_adds++; alias_expiry = g_now + 10 * QB_TIME_NS_IN_MSEC;
+		break;
+	case 10:
+		PROP(qb_loop_job_add(&L, QB_LOOP_MED, JOB(0), cb_alias) == 0, "job_add succeeds");
+		medjob_adds++; medjob_queued++;
+		break;
+	case 11: {
+		int32_t r = qb_loop_job_del(&L, QB_LOOP_MED, JOB(0), cb_alias);
+		int queued = medjob_queued;      /* MED jobs only run inside three_iterations(), which drains them all */
+		if (queued > 0) { PROP(r == 0, "job_del of a queued job succeeds"); if (r == 0) { medjob_dels++; medjob_queued--; } }
+		else PROP(r == -ENOENT, "job_del of a job that is not queued reports -ENOENT (a timer with the same callback and data is not a job)");
+		break; }
+	case 12:
+		three_iterations();
+		PROP(medjob_queued <= 4, "harness: at most to_process MED jobs queued");
+		medjob_queued = 0;
 		break;
 	case 8: {
 		if (tm_handle[a] == 0) break;
@@ -211,6 +261,10 @@ static void harness_scenario(int s)
 	g_now += QB_TIME_NS_IN_SEC;
 	for (int k = 0; k < NOPS + 3; k++) iteration();
 
+#if FAMILY == 2
+	three_iterations(); three_iterations();
+	PROP(alias_or_job_runs == alias_adds + (medjob_adds - medjob_dels), "every added and not deleted job and timer ran exactly once (shared callback)");
+#endif
 	PROP(!early_fire, "no timer callback runs before its duration has elapsed");
 	PROP(!run_after_del, "no callback runs after its delete call returned success");
 	for (int j = 0; j < 2; j++) {
